@@ -555,3 +555,15 @@ def run(chk):
     finally:
         chk.rule_prefix = ""
         chk.rule_filter = None
+    # "a claimed buffer belongs to its claimer until sent and then to the receiver until released": the library's own users of
+    # the queue must stay inside that window (C07.R3: slot written before send, read before release)
+    from . import C07
+    chk.rule("C07.R3", "in-tree users: every write of a claimed slot precedes messageq_send, every read of a received slot precedes messageq_release")
+    chk.rule_prefix = "C07."
+    chk.rule_filter = lambda r: r.startswith("R3.slot")
+    try:
+        for cfg in ("default", "noatomics"):
+            C07.check_r3_slots(chk, cfg, build.load_units(build.library_units(), cfg))
+    finally:
+        chk.rule_prefix = ""
+        chk.rule_filter = None
